@@ -1,5 +1,6 @@
 import MpVerif.C02.LemmasTop
 import MpVerif.C02.LemmasTotal
+import MpVerif.C02.LemmasSafe
 /-!
 # C02 — property theorems
 
@@ -45,18 +46,17 @@ theorem finish_consistent {strict : Bool} {h : Header} (p : P Unit) (s : PState)
 theorem C02_consistent (data : ByteArray) (flags : Nat) (objsel : Option Nat) :
     Consistent objsel.isNone (readNL data flags objsel) = true := by
   have hso : objsel.isNone = true → objsel = none := by cases objsel <;> simp
-  unfold readNL
-  simp only []
+  unfold readNL readNLInp
   split
   · rfl
   · rfl
   · rename_i h r _
     split
-    · exact finish_consistent _ _ (readBody_ok ⟨⟨data⟩, .text, h, flags, objsel⟩ hso r)
+    · exact finish_consistent _ _ (readBody_ok ⟨Inp.ofBytes data, .text, h, flags, objsel⟩ hso r)
     split
-    · exact finish_consistent _ _ (readBody_ok ⟨⟨data⟩, .bin false, h, flags, objsel⟩ hso r)
+    · exact finish_consistent _ _ (readBody_ok ⟨Inp.ofBytes data, .bin false, h, flags, objsel⟩ hso r)
     split
-    · exact finish_consistent _ _ (readBody_ok ⟨⟨data⟩, .bin true, h, flags, objsel⟩ hso r)
+    · exact finish_consistent _ _ (readBody_ok ⟨Inp.ofBytes data, .bin true, h, flags, objsel⟩ hso r)
     · simp [Consistent, run, Outcome.isOk]
 
 /-- the same for the handler that needs every objective, spelled out -/
@@ -182,8 +182,7 @@ theorem finish_nofuel {h : Header} {res : PRes Unit} (hn : NoFuel res) : (finish
     (`len + 2` per expression, `2·len + 4` segment iterations) is never exhausted, for any input. -/
 theorem C02_total (data : ByteArray) (flags : Nat) (objsel : Option Nat) :
     (readNL data flags objsel).outcome ≠ .fuel := by
-  unfold readNL
-  simp only []
+  unfold readNL readNLInp
   split
   · simp
   · simp
@@ -195,29 +194,169 @@ theorem C02_total (data : ByteArray) (flags : Nat) (objsel : Option Nat) :
     · exact finish_nofuel (readBody_nofuel _ _)
     · simp
 
-/-! ### undefined behaviour
+/-! ### memory safety of the cursor at model level
 
-After the fixes 1efd01c, e1c4ee8, e61f0aa, 984b1d0 (found by this check: `(long)tmp` on an out-of-range
-header option, `num_compl_conds += ..`, `ConHandler::num_items()`, `num_items + 1`) the reader contains no
-conversion or signed-arithmetic UB any more: the model has a located read error (`integer overflow`) or
-an early `break` at these points, and the corresponding inputs are regression cases of the correspondence
-(`FIXED` in checks/c02_gen.py).
+Buffer contract (`NLStringRef`, `NLFileReader`): `data[0 .. len)` followed by a NUL at offset `len`
+(`end_`); `Inp.rd p = 0` for `p ≥ len` (`Inp.rd_zero`).  The model marks every dereference of the cursor
+(`ReadChar`, `SkipSpace`, `ReadIntWithoutSign`, `ReadTillEndOfLine`) with a guard that yields `ub overrun`
+if the cursor is past that NUL.  `LemmasIn` shows that every text primitive advances only past bytes it
+has seen to be non-NUL (including the model of `strtod`) and every binary primitive only after the length
+check `end_ - ptr_ ≥ n`; `LemmasSafe` shows that every continuation of `ReadChar` either knows the byte
+was not NUL or stops.  Since `overrun` is the only `ub` left after the fixes 1efd01c, e1c4ee8, e61f0aa,
+984b1d0 (conversion / signed-arithmetic UB found by this check), this is the full-strength statement. -/
 
-The only undefined behaviour left in the model is the explicit guard `ub overrun` (dereferencing the
-cursor past the terminating NUL).  Full-strength statement, NOT proved (it needs a fourth pass over the
-parser with the invariant "a non-NUL `ReadChar` result implies the cursor is inside the buffer"); it is
-observed only (ASan on exact-size heap copies, `ub:overrun` never predicted by the model on any run):
+theorem readBody_safe (cx : Env) (s : PState) (hs : s.r.pos ≤ cx.inp.len) :
+    PSafe (readBody cx) s (fun _ _ => True) := by
+  have ps := primSafe cx.inp cx.k
+  have fin : ∀ (rb : Bool) (br : Option RState) (s : PState), s.r.pos ≤ cx.inp.len →
+      (∀ r, br = some r → r.pos ≤ cx.inp.len) →
+      PSafe (do readLoop cx (loopFuel cx.inp) rb br; emit .endInput : P Unit) s (fun _ _ => True) := by
+    intro rb br s hs hbr
+    apply psafe_bind
+    apply psafe_mono (readLoop_safe ps _ rb br s hs hbr)
+    intro _ s1 _
+    trivial
+  unfold readBody
+  split
+  · have h1 := readLoop_safe (cx := { cx with objsel := none }) ps (loopFuel cx.inp) true none ⟨s.r, []⟩ hs
+      (fun _ h => by cases h)
+    have hfin := fun s1 : PState => fin false (some s1.r) ⟨s.r, s1.evs.filter isVarBounds ++ s.evs⟩ hs
+    unfold PSafe at h1 hfin ⊢
+    simp only [] at h1 hfin ⊢
+    generalize readLoop { inp := cx.inp, k := cx.k, h := cx.h, flags := cx.flags, objsel := none }
+      (loopFuel cx.inp) true none ⟨s.r, []⟩ = res at h1 ⊢
+    cases res with
+    | ok a s1 =>
+      rename_i hfl
+      have hodd : cx.flags % 2 = 1 := by simpa using hfl
+      exact hfin s1 (fun r hr => by cases hr; exact h1 trivial hodd)
+    | err e evs1 => trivial
+    | ub u evs1 => exact h1
+    | fuel => trivial
+  · exact fin true none s hs (fun _ h => by cases h)
 
-    theorem C02_no_ub (data flags objsel) : ∀ u, (readNL data flags objsel).outcome ≠ .ub u
+theorem finish_noub {h : Header} (p : P Unit) (s : PState) {Q : Unit → PState → Prop} (hn : PSafe p s Q) :
+    ∀ u, (finish h (p s)).outcome ≠ .ub u := by
+  intro u
+  unfold PSafe at hn
+  cases hres : p s <;> rw [hres] at hn <;> simp [finish] at hn ⊢
 
-What is proved about such an outcome: -/
+/-- **C02 (no undefined behaviour at model level).**  For every byte string, flag value and objective
+    filter the reader never dereferences its cursor past the terminating NUL — in the header, in text and
+    in (native or byte-swapped) binary bodies, in both passes of READ_BOUNDS_FIRST — and no other
+    undefined behaviour is left in the model. -/
+theorem C02_no_ub (data : ByteArray) (flags : Nat) (objsel : Option Nat) :
+    ∀ u, (readNL data flags objsel).outcome ≠ .ub u := by
+  intro u
+  unfold readNL readNLInp
+  have hh := readHeader_safe (Inp.ofBytes data)
+  split
+  · simp
+  · rename_i u' hhd
+    exact absurd hhd (hh.noub _ (Nat.zero_le _) u')
+  · rename_i h r hhd
+    have hr : r.pos ≤ (Inp.ofBytes data).len := hh.ok _ (Nat.zero_le _) h r hhd
+    split
+    · exact finish_noub _ _ (readBody_safe ⟨Inp.ofBytes data, .text, h, flags, objsel⟩ ⟨r, []⟩ hr) u
+    split
+    · exact finish_noub _ _ (readBody_safe ⟨Inp.ofBytes data, .bin false, h, flags, objsel⟩ ⟨r, []⟩ hr) u
+    split
+    · exact finish_noub _ _ (readBody_safe ⟨Inp.ofBytes data, .bin true, h, flags, objsel⟩ ⟨r, []⟩ hr) u
+    · simp
 
-/-- if the model ever reported `ub`, everything delivered up to that point is still consistent with the
-    header, and the outcome is not an artefact of the recursion fuel -/
-theorem C02_no_ub_partial (data : ByteArray) (flags : Nat) (objsel : Option Nat) (u : UB)
-    (_hu : (readNL data flags objsel).outcome = .ub u) :
-    Consistent objsel.isNone (readNL data flags objsel) = true ∧ (readNL data flags objsel).outcome ≠ .fuel :=
-  ⟨C02_consistent data flags objsel, C02_total data flags objsel⟩
+/-- every call ends in exactly one of: normal completion, or a located read error -/
+theorem C02_completes_or_read_error (data : ByteArray) (flags : Nat) (objsel : Option Nat) :
+    (readNL data flags objsel).outcome = .ok ∨ ∃ e, (readNL data flags objsel).outcome = .err e := by
+  have h1 := C02_total data flags objsel
+  have h2 := C02_no_ub data flags objsel
+  cases ho : (readNL data flags objsel).outcome with
+  | ok => exact Or.inl rfl
+  | err e => exact Or.inr ⟨e, rfl⟩
+  | ub u => exact absurd ho (h2 u)
+  | fuel => exact absurd ho h1
+
+/-! ### file path = in-memory path -/
+
+theorem Inp.ext' {a b : Inp} (hrd : ∀ p, a.rd p = b.rd p) (hlen : a.len = b.len) : a = b := by
+  cases a with | mk rd1 len1 nul1 => cases b with | mk rd2 len2 nul2 =>
+  have : rd1 = rd2 := funext hrd
+  subst this
+  simp only at hlen
+  subst hlen
+  rfl
+
+/-- the buffer `NLFileReader::Read` hands to `ReadNLString` (either path) reads exactly like the file's
+    bytes followed by NULs -/
+theorem fileBuffer_rd (content : ByteArray) (pageSize : Nat) (p : Nat) :
+    bufRd (fileBuffer content pageSize) p = bufRd content.data p := by
+  have hsz : content.data.size = content.size := rfl
+  by_cases hp : p < content.data.size
+  · have hp' : p < content.size := by omega
+    unfold fileBuffer
+    simp only
+    generalize (if (content.size % pageSize != 0) = true then content.size + pageSize - content.size % pageSize
+      else content.size) = rounded
+    by_cases h : (content.size == rounded) = true
+    · rw [if_pos h]
+      unfold bufRd
+      have h1 : p < (content.data.push 0).size := by simp; omega
+      simp only [h1, hp, ↓reduceDIte]
+      rw [Array.getElem_push]
+      simp [hp']
+    · rw [if_neg h]
+      unfold bufRd
+      have h1 : p < (content.data ++ Array.replicate (rounded - content.size) 0).size := by simp; omega
+      simp only [h1, hp, ↓reduceDIte]
+      rw [Array.getElem_append]
+      simp [hp']
+  · have hp' : ¬ p < content.size := by omega
+    rw [fileBuffer_nul content pageSize p (by omega)]
+    unfold bufRd
+    simp [hp']
+
+/-- **C02 (file path = memory path).**  `NLFileReader::Read` — through the copy path (file size a multiple
+    of the page size) or the mmap path (zero-filled tail of the last page) — delivers exactly what
+    `ReadNLString` delivers on the same bytes with the same flags: same header, same notifications, same
+    outcome, for every content, page size, flag value and objective filter. -/
+theorem C02_file_eq_string (content : ByteArray) (pageSize flags : Nat) (objsel : Option Nat) :
+    readNLFile content pageSize flags objsel = readNL content flags objsel := by
+  have key : (⟨bufRd (fileBuffer content pageSize), content.size, fileBuffer_nul content pageSize⟩ : Inp)
+      = Inp.ofBytes content :=
+    Inp.ext' (fun p => fileBuffer_rd content pageSize p) rfl
+  unfold readNLFile readNL
+  simp only [key, ite_self]
+
+/-! ### byte order -/
+
+theorem foldl_congr_mem {α β : Type} (f g : α → β → α) : ∀ (l : List β) (a : α),
+    (∀ x ∈ l, ∀ acc, f acc x = g acc x) → l.foldl f a = l.foldl g a := by
+  intro l
+  induction l with
+  | nil => intro a _; rfl
+  | cons x xs ih =>
+    intro a h
+    simp only [List.foldl_cons]
+    rw [h x (List.mem_cons_self ..) a]
+    exact ih _ (fun y hy acc => h y (List.mem_cons_of_mem _ hy) acc)
+
+/-- **C02 (byte order, per field).**  `EndiannessConverter` on a field whose `n` bytes are stored in
+    reverse order yields the value `IdentityConverter` yields on the field in native order: the byte-swapped
+    binary reader reads every `short`/`int`/`double` of a byte-swapped file as the native reader reads it in
+    the native file.  (The whole-file statement needs the field boundaries, i.e. the parse itself; it is
+    checked on generated twins — the same problem written in both byte orders must give the same
+    notifications from the real reader — by `checks/c02.py`.) -/
+theorem C02_swap_field (native swapped : Inp) (p n : Nat)
+    (hrev : ∀ i, i < n → swapped.rd (p + i) = native.rd (p + (n - 1 - i))) :
+    leBytes swapped true p n = leBytes native false p n := by
+  unfold leBytes
+  apply foldl_congr_mem
+  intro i hi acc
+  have hi' : i < n := List.mem_range.mp hi
+  simp only [↓reduceIte, Bool.false_eq_true]
+  have h1 : n - 1 - i < n := by omega
+  rw [hrev (n - 1 - i) h1]
+  have : n - 1 - (n - 1 - i) = i := by omega
+  rw [this]
 
 def bytesOf (l : List Nat) : ByteArray := ⟨(l.map Nat.toUInt8).toArray⟩
 
